@@ -52,6 +52,11 @@ def scenario_case(sseed: int, scen: str, k: Optional[int], kind: str) -> Dict[st
         # tuning knob: the pause between handshake steps (shipped 0 = one turn of the loop): with a real pause the windows between the
         # steps of _connect() are many callbacks wide
         cfg["consts"] = {"CONNECTION_STEP_PAUSE_IN_SECONDS": 0.2}
+    if scen.startswith("auto-") and sseed % 3 == 0:
+        # the application leaves the manager's context while the library's own reset is suspended in the client's handler (the event that
+        # announces the disconnect): the reset is cut short by the exit, which still owes the connection's endpoint its release
+        cfg["exit_in_reset"] = True
+        cfg["suspend_events"] = ["RUNNING_SPA_DISCONNECTED"]
     if scen in ("connect", "lossy-connect"):
         # hold the client's handler in the deliveries that mark the transient states (SPA_READY, LOCATED_SPAS), so that injection points
         # fall inside them
@@ -176,6 +181,10 @@ async def scenario(world: WorldA) -> None:
                                  "by": d["task"], "d": d}
             state["auto"] = a
             res.probe("library_reset_observed")
+            if cfg.get("exit_in_reset") and body_task.get("t") is not None and not body_task["t"].done():
+                state["exit_injected"] = True
+                body_task["t"].cancel()
+                res.probe("exit_while_the_library_reset_is_suspended_in_the_handler")
     man.on_delivery.append(on_auto)
 
     async def wait_state(pred, cap: float) -> bool:
@@ -673,7 +682,7 @@ ASSUMPTIONS = [
     "a callback boundary is an await point of some task; sweeping the callback index therefore sweeps the reachable await points of the scenario",
     "observers are the harness's own recording callbacks registered through the public watch() API",
 ]
-PROBES = ["command_through_the_synchronous_api", "library_reset_observed", "library_reset_with_suspended_handler", "inject_in_LOCATING_SPAS", "inject_in_CONNECTING", "inject_in_CONNECTED", "inject_in_ERROR_PING_MISSED", "inject_in_ERROR_RF_FAULT",
+PROBES = ["command_through_the_synchronous_api", "exit_while_the_library_reset_is_suspended_in_the_handler", "library_reset_observed", "library_reset_with_suspended_handler", "inject_in_LOCATING_SPAS", "inject_in_CONNECTING", "inject_in_CONNECTED", "inject_in_ERROR_PING_MISSED", "inject_in_ERROR_RF_FAULT",
           "inject_in_ERROR_NEEDS_ATTENTION", "inject_in_ERROR_SPA_NOT_FOUND", "inject_in_LOCATED_SPAS", "inject_in_SPA_READY"]
 EXHAUSTIVE = {"quick": False, "thorough": False}
 N_QUICK = 1680
